@@ -500,6 +500,7 @@ class ThreadPool(object):
                     if (
                         self.__nb_threads > self._min_threads
                         and extra_threads > self._queue.qsize()
+                        and self._queue.empty()
                     ):
                         # No more work for this thread
                         # if there are more non active_thread than task
